@@ -6,6 +6,9 @@
  */
 
 #include "LASolver.h"
+#ifdef OPENSMT_VERIF_HOOKS
+#include <common/VerifHooks.h>
+#endif
 #include "FarkasInterpolator.h"
 #include "LIAInterpolator.h"
 #include "CutCreator.h"
@@ -123,6 +126,16 @@ void LASolver::storeExplanation(Simplex::Explanation &&explanationBounds) {
         explanation.push(asgn);
         explanationCoefficients.push_back(explanationBounds[i].coeff);
     }
+#ifdef OPENSMT_VERIF_HOOKS
+    if (verif::on() and explanation.size() > 0) {
+        std::string rec = "F";
+        for (int i = 0; i < explanation.size(); ++i) {
+            rec += "\t" + explanationCoefficients[i].get_str() + "\t" + (explanation[i].sgn == l_True ? "+" : "-") + "\t" +
+                   verif::term(logic, explanation[i].tr);
+        }
+        verif::raw(rec);
+    }
+#endif
 }
 
 bool LASolver::check_simplex(bool complete) {
